@@ -2,6 +2,7 @@
 //!
 //! This module handles error recovery logic and saving failed message records.
 
+use mdk_storage_traits::groups::Pagination;
 use mdk_storage_traits::groups::types as group_types;
 use mdk_storage_traits::messages::types as message_types;
 use mdk_storage_traits::{GroupId, MdkStorageProvider};
@@ -41,6 +42,39 @@ where
             Error::CommitFromNonAdmin => "authorization_failed",
             _ => "processing_failed",
         }
+    }
+
+    /// Recomputes the group's cached last-message pointer from the stored messages: the first
+    /// message of the default display order that is not invalidated, or nothing.
+    fn refresh_last_message_pointer(&self, mls_group_id: &GroupId) -> Result<()> {
+        const PAGE: usize = 100;
+        let Some(mut group) = self.get_group(mls_group_id)? else {
+            return Ok(());
+        };
+        let mut offset = 0;
+        let head = loop {
+            let page = self
+                .storage()
+                .messages(mls_group_id, Some(Pagination::new(Some(PAGE), Some(offset))))
+                .map_err(|e| Error::Group(e.to_string()))?;
+            if let Some(message) = page
+                .iter()
+                .find(|m| m.state != message_types::MessageState::EpochInvalidated)
+            {
+                break Some(message.clone());
+            }
+            if page.len() < PAGE {
+                break None;
+            }
+            offset += page.len();
+        };
+        group.last_message_id = head.as_ref().map(|m| m.id);
+        group.last_message_at = head.as_ref().map(|m| m.created_at);
+        group.last_message_processed_at = head.as_ref().map(|m| m.processed_at);
+        self.storage()
+            .save_group(group)
+            .map_err(|e| Error::Group(e.to_string()))?;
+        Ok(())
     }
 
     /// Records a failed message processing attempt to prevent reprocessing
@@ -331,6 +365,17 @@ where
                                 &group.mls_group_id,
                                 msg_epoch,
                             );
+
+                            // The snapshot restored the cached last-message pointer as it was when
+                            // the snapshot was taken: messages stored since then that stay valid must
+                            // still be designated, invalidated ones must not be.
+                            if let Err(e) = self.refresh_last_message_pointer(&group.mls_group_id) {
+                                tracing::warn!(
+                                    target: "mdk_core::messages::process_message",
+                                    "Failed to refresh last-message pointer after rollback: {}",
+                                    e
+                                );
+                            }
 
                             // Find messages that failed to decrypt because we had the wrong
                             // commit's keys. Now that we've rolled back and will apply the
